@@ -408,7 +408,7 @@ CHECKS["C14"] = dict(
                  "a read-only command kept on the master under REPLICA/BOTH is allowed (the statement only restricts what may go to replicas)"],
     parts=[
         dict(name="names", test="TestAllNames", kind="plain", shards=9, timeout=900, gomaxprocs=4),
-        dict(name="random", test="TestRandomCommands", kind="rapid", checks={"quick": 60, "thorough": 4000}, shards=16, timeout={"quick": 900, "thorough": 3400}, shrinktime="60s", gomaxprocs=4, crash_is_violation=True),
+        dict(name="random", test="TestRandomCommands", kind="rapid", checks={"quick": 200, "thorough": 4000}, shards=16, timeout={"quick": 900, "thorough": 3400}, shrinktime="60s", gomaxprocs=4, crash_is_violation=True),
     ],
 )
 
